@@ -1628,7 +1628,7 @@ _HERE = _os.path.dirname(_os.path.abspath(__file__))
 ALL_PROPS = tuple('C%02d' % i for i in range(1, 21))
 # refactorings that add assert statements whose truth C07.e cannot establish (it discharges assertions implied by the dominating tests,
 # unreachable ones and a few trivial forms): C07 answers "undecided" (exit 2) on them - never VIOLATION
-_C07_UNDECIDED_OK = {'R27-2', 'R27-3', 'R27-4', 'R27-5'}
+_C07_UNDECIDED_OK = {'R27-2', 'R27-3', 'R27-4', 'R27-5', 'R31-3'}
 for _p in sorted(_glob.glob(_os.path.join(_HERE, 'refactors', 'R*.diff'))):
     _v = _PatchVariant(ALL_PROPS, 'twin', 'refactor-' + _os.path.basename(_p)[:-5], _p)
     if _os.path.basename(_p)[:-5] in _C07_UNDECIDED_OK:
